@@ -155,7 +155,11 @@ def generated(quick):
              "Group = g\n  a = Null\n  b = tRuE\nEnd_Group\nEnd\n", "a = \"\"\nb = ''\n",
              "a = 12:00+01:30\nb = 2001-001\nc = 2001-01-01T12:00:00.123456Z\n",
              "a = 16#FF#\nb = -2#101#\nc = 10#-9#\nd = +.5\ne = 1.E3\n", "a = \"x  y\"\nb = \"p\n   q\"\nc = 'it''s'\n",
-             "s = {zz, aa, mm, \"b c\", 3, 1, 2}\n", "a = END_GROUP_1\nb = \"END\"\nc = null_1\n"]
+             "s = {zz, aa, mm, \"b c\", 3, 1, 2}\n", "a = END_GROUP_1\nb = \"END\"\nc = null_1\n",
+             "OBJECT=o\nEND_OBJECT\nGROUP = g\n a = 1\n A = 2\nEND_GROUP\nEND", "GROUP = g\n a = 1\n A = 2\nEND_GROUP\n",
+             "k = 5 <m/s^2>\nj = 1 <%>\ni = 2 <1/s>\nh = 3 <m**x>\ng = 4 <deg.>\n",
+             "t = 2001-01-01T10:00:00-05:30\nu = 23:30+02\nv = 2001-01-01T23:30:10.5+02\n",
+             "a =\nb = ;\nGROUP = g\n c =\nEND_GROUP\n"]
     for t in extra:
         yield "extra", t
 
